@@ -1,6 +1,9 @@
 import NanoVerif.Proofs.Split
 import NanoVerif.Proofs.SplitSampler
 import NanoVerif.Proofs.SplitBall
+import NanoVerif.Proofs.SplitGen
+import NanoVerif.Proofs.SplitGenSampling
+import NanoVerif.Proofs.SplitGenGboost
 /-!
   C12 — splitters and samplers return index sets with the promised set structure.
 
@@ -16,19 +19,19 @@ import NanoVerif.Proofs.SplitBall
   | splitter.cpp:7-12 `splitter_t::splitter_t` (registers folds, seed) | translated + modelled | `Gen.Splitter.*`, `Splitter.fresh`, `Splitter.set`, `paramsOk` |
   | splitter.cpp:14-27 `splitter_t::all` (factory, call_once) | outside (C19 owns the factories; the harness obtains every object through it) | — |
   | kfold.cpp:6-9 constructor | modelled | `Splitter.fresh .kfold` |
-  | kfold.cpp:11-45 `kfold_splitter_t::split` | modelled | `kfold`, `foldSplit`, `validBegin/End`, object level `Splitter.split`, `hStep` |
+  | kfold.cpp:11-45 `kfold_splitter_t::split` | modelled + TRANSLATED (`Gen/SplitKFold.lean`: `trainPieces`, `validPieces`, `foldPair`, `split`; `model_kfold_*_is_generated`, `model_foldSplit_is_generated`, `gen_kfold_pieces_tile`) | `kfold`, `foldSplit`, `validBegin/End`, object level `Splitter.split`, `hStep` |
   | kfold.cpp:47-50 `clone` | modelled | `HCmd.clone` (`hist_clone_copies`) |
   | random.cpp:7-11 constructor (registers train_per) | translated + modelled | `Gen.Splitter.trainPer*`, `Splitter.set .trainPer` (random only) |
-  | random.cpp:13-45 `random_splitter_t::split` | modelled | `trainSize` (through translated `Gen.idiv`), `randomPerms`, `randomSplit`, `Splitter.split` |
+  | random.cpp:13-45 `random_splitter_t::split` | modelled + TRANSLATED (`Gen/SplitRandom.lean`: `outer0/1`, pieces, `loop`, `split`; `model_random_*_is_generated`, `model_splitter_split_is_generated`) | `trainSize` (through translated `Gen.idiv`), `randomPerms`, `randomSplit`, `Splitter.split` |
   | random.cpp:47-50 `clone` | modelled | `HCmd.clone` |
-  | sampling.cpp:5-13 `sample_with_replacement(samples, count, rng)` | modelled | `sampleWith`, `pick`, `withG` (generator threaded) |
-  | sampling.cpp:21-33 `sample_with_replacement(samples, weights, count, rng)` | modelled, incl. the distribution | `wwithG`, `ddCp`, `ddDraw`, `lowerBound` |
-  | sampling.cpp:41-51 `sample_without_replacement(samples, count, rng)` | modelled | `sampleWithout`, `withoutG` |
+  | sampling.cpp:5-13 `sample_with_replacement(samples, count, rng)` | modelled + TRANSLATED (`Gen/SplitSampling.lean` `withBody/withDist/withGuards`; `model_withG_is_generated`) | `sampleWith`, `pick`, `withG` (generator threaded) |
+  | sampling.cpp:21-33 `sample_with_replacement(samples, weights, count, rng)` | modelled, incl. the distribution; skeleton TRANSLATED (`weightedBody`, `model_wwithG_is_generated`) | `wwithG`, `ddCp`, `ddDraw`, `lowerBound` |
+  | sampling.cpp:41-51 `sample_without_replacement(samples, count, rng)` | modelled + TRANSLATED (`withoutGuards/withoutBody`; `model_withoutG_is_generated`) | `sampleWithout`, `withoutG` |
   | sampling.cpp:15-19, 35-39, 53-57, 59-63, 75-79 overloads without a generator | outside: `make_rng()` reads `std::random_device`; their answers go to the property oracle (family `unseeded`) | — |
   | sampling.cpp:65-73, 81-100 `sample_from_ball(x0, radius[, x], rng)` | modelled; normal / uniform draws, `pow`, `lpNorm<2>` are oracles (`u`, `z`, `s`) | `ballPoint`, `distSq`, `ball_inside` |
-  | random.cpp (core):6-17 `make_rng(seed)` | seeded branch modelled; unseeded branch outside | `lcgSeed`, `lcgNext` |
-  | gboost/sampler.cpp:7-15 constructor | modelled | `Sampler.make` |
-  | gboost/sampler.cpp:17-62 `sampler_t::sample` | modelled: count, weights, the routine called per mode, the member generator | `Sampler.count`, `Sampler.newWeights`, `Sampler.sample`, `Sampler.run` |
+  | random.cpp (core):6-17 `make_rng(seed)` | seeded branch modelled, branch condition + seed value TRANSLATED (`makeRngSeeded`, `model_make_rng_is_generated`); unseeded branch outside | `lcgSeed`, `lcgNext` |
+  | gboost/sampler.cpp:7-15 constructor | modelled + TRANSLATED (`Gen/SplitGboost.lean` `weightsEmpty`; `model_sampler_make_is_generated`) | `Sampler.make` |
+  | gboost/sampler.cpp:17-62 `sampler_t::sample` | TRANSLATED dispatch (`route`, `count`; `model_sampler_sample_is_generated`) + modelled: count, weights, the routine called per mode, the member generator | `Sampler.count`, `Sampler.newWeights`, `Sampler.sample`, `Sampler.run` |
   | numeric.h `idiv`, `iround` | translated | `Gen.idiv`, `Gen.iround` |
   | numeric.h `square`, `cube`, `quartic`, `close`, `roundpow10`, `epsilon*`, … | outside: not used by the anchored code | — |
   | libstdc++ `minstd_rand`, `generate_canonical<double,53>`, `discrete_distribution` | modelled as coded (gcc 12 `bits/random.tcc`) | `lcgNext`, `canonNum` / `canonical`, `accum`, `normalize`, `partialSums`, `setLast`, `ddCp`, `lbGo` |
@@ -717,5 +720,53 @@ example := hist_equal_params_equal_splits (fun _ => ()) (fun g l => (l.reverse, 
   [.split 0 [1, 2, 3], .split 0 [1, 2, 3], .clone 0] [] 1 0 [1, 2, 3] (Splitter.fresh .random) rfl rfl
 example := hist_splits_keep_objects (fun _ => ()) (fun g l => (l.reverse, g)) id [.split 0 [1, 2, 3], .split 0 [4]]
   [Splitter.fresh .kfold] (by intro c hc; simp only [List.mem_cons, List.not_mem_nil, or_false] at hc; rcases hc with rfl | rfl <;> exact ⟨_, _, rfl⟩)
+
+/-! ### the property for the text regenerated from the source (translation round)
+
+The statements below are about `Gen/SplitKFold.lean`, `Gen/SplitRandom.lean`, `Gen/SplitSampling.lean` — the files that
+`tools/props/c12_translate.py` rewrites from `kfold.cpp`, `random.cpp`, `sampling.cpp` on every run — through the
+`model_*_is_generated` equalities of `Proofs/SplitGen.lean` / `Proofs/SplitGenSampling.lean`. -/
+
+/-- `kfold_splitter_t::split` as it stands in the source: one pair per fold, each pair strictly sorted, disjoint and together
+    exactly the input — for every generator and every shuffle that returns a permutation -/
+theorem kfold_split_generated {G : Type} (seedRng : Nat → G) (shuffle : G → List Int → List Int × G)
+    (hsh : ∀ g l, (shuffle g l).1.Perm l) (sort : List Int → List Int) (hs : SortSpec sort) (samples : List Int)
+    (hnd : samples.Nodup) (seed folds : Nat) :
+    (Gen.SplitKFold.split seedRng shuffle sort seed (folds : Int) samples).length = folds ∧
+    ∀ p ∈ Gen.SplitKFold.split seedRng shuffle sort seed (folds : Int) samples, GoodPair samples p := by
+  rw [← model_kfold_is_generated]
+  exact ⟨kfold_length _ _ _, kfold_pair sort hs samples _ hnd (hsh _ _) folds⟩
+
+/-- `random_splitter_t::split` as it stands in the source: the same promise for each of its `folds` pairs -/
+theorem random_split_generated {G : Type} (seedRng : Nat → G) (shuffle : G → List Int → List Int × G)
+    (hsh : ∀ g l, (shuffle g l).1.Perm l) (sort : List Int → List Int) (hs : SortSpec sort) (samples : List Int)
+    (hnd : samples.Nodup) (seed folds trainPer : Nat) :
+    (Gen.SplitRandom.split seedRng shuffle sort seed (folds : Int) (trainPer : Int) samples).length = folds ∧
+    ∀ p ∈ Gen.SplitRandom.split seedRng shuffle sort seed (folds : Int) (trainPer : Int) samples, GoodPair samples p := by
+  have hlen : ∀ g l, (shuffle g l).1.length = l.length := fun g l => (hsh g l).length_eq
+  rw [← model_random_split_is_generated seedRng shuffle sort hlen]
+  obtain ⟨h1, h2⟩ := randomPerms_perm shuffle hsh folds (seedRng seed) samples
+  exact ⟨by simp [randomSplit, h1], random_pair sort hs samples _ hnd h2 trainPer⟩
+
+/-- `sample_without_replacement(samples, count, rng)` as it stands in the source: under its own assert the answer has `count`
+    distinct (strictly sorted) members of the input -/
+theorem without_replacement_generated {G : Type} (shuffle : G → List Int → List Int × G)
+    (hsh : ∀ g l, (shuffle g l).1.Perm l) (sort : List Int → List Int) (hs : SortSpec sort) (samples : List Int)
+    (hnd : samples.Nodup) (count : Nat) (g : G)
+    (hguard : (Gen.SplitSampling.withoutGuards samples.length count).all id = true) :
+    let r := (Gen.SplitSampling.withoutBody shuffle sort samples count g).1
+    r.length = count ∧ r.Pairwise (· < ·) ∧ ∀ x ∈ r, x ∈ samples := by
+  intro r
+  have hlen : (shuffle g samples).1.length = samples.length := (hsh g samples).length_eq
+  have h := model_sampleWithout_is_generated sort (shuffle g samples).1 count
+  rw [hlen, if_pos hguard] at h
+  exact without_replacement_spec sort hs samples _ hnd (hsh g samples) count _ h
+
+example := kfold_split_generated (fun _ => ()) (fun g l => (l.reverse, g)) (fun _ l => List.reverse_perm l) sortI sortI_spec
+  [10, 3, 5, 8] (by decide) 42 2
+example := random_split_generated (fun _ => ()) (fun g l => (l.reverse, g)) (fun _ l => List.reverse_perm l) sortI sortI_spec
+  [10, 3, 5, 8] (by decide) 42 2 80
+example := without_replacement_generated (fun (g : Unit) l => (l.reverse, g)) (fun _ l => List.reverse_perm l) sortI sortI_spec
+  [10, 3, 5, 8] (by decide) 2 () (by decide)
 
 end NanoVerif.Split
